@@ -221,6 +221,14 @@ class SetextHeading(BlockToken):
         raise NotImplementedError()
 
 
+class _LazyLine(str):
+    """
+    A lazy continuation line: paragraph continuation text that lacks the marker or
+    indentation of the container(s) it continues. It can never be the underline
+    of a setext heading.
+    """
+
+
 class Quote(BlockToken):
     """
     Block quote token. (["> # heading\\n", "> paragraph\\n"])
@@ -278,17 +286,12 @@ class Quote(BlockToken):
                 break
             else:
                 # lazy continuation, preserve whitespace
-                line_buffer.append(next_line)
+                line_buffer.append(_LazyLine(next_line))
             next(lines)
             next_line = lines.peek()
 
         # parse child block tokens
-        Paragraph.parse_setext = False
-        try:
-            parse_buffer = tokenizer.tokenize_block(line_buffer, _token_types, start_line=start_line)
-        finally:
-            Paragraph.parse_setext = True
-        return parse_buffer
+        return tokenizer.tokenize_block(line_buffer, _token_types, start_line=start_line)
 
     @staticmethod
     def convert_leading_tabs(string):
@@ -314,7 +317,7 @@ class Paragraph(BlockToken):
     This is a leaf block token. Its children are inline (span) tokens.
     """
     setext_pattern = re.compile(r' {0,3}(=+|-+)[ \t]*$')
-    parse_setext = True  # can be disabled by Quote
+    parse_setext = True  # can be switched off
 
     def __new__(cls, lines):
         if not isinstance(lines, list):
@@ -343,7 +346,7 @@ class Paragraph(BlockToken):
                 break
 
             # check if the paragraph being parsed is in fact a Setext heading
-            if cls.parse_setext and cls.is_setext_heading(next_line):
+            if cls.parse_setext and not isinstance(next_line, _LazyLine) and cls.is_setext_heading(next_line):
                 line_buffer.append(next(lines))
                 return tuple(line_buffer)
 
@@ -592,7 +595,10 @@ class ListItem(BlockToken):
         if match_obj.group(2) == '\n':
             return '\n'
         expanded_spaces = match_obj.group(1).expandtabs(4)
-        return expanded_spaces[prepend:] + match_obj.group(2) if len(expanded_spaces) >= prepend else None
+        if len(expanded_spaces) < prepend:
+            return None
+        # (a line that is a lazy continuation line of an enclosing container stays one)
+        return type(line)(expanded_spaces[prepend:] + match_obj.group(2))
 
     @classmethod
     def parse_marker(cls, line):
@@ -686,7 +692,7 @@ class ListItem(BlockToken):
                     lines.backstep()
                     del line_buffer[-newline_count:]
                     break
-                continuation = next_line
+                continuation = _LazyLine(next_line)
 
             line_buffer.append(continuation)
             newline_count = newline_count + 1 if continuation == '\n' else 0
